@@ -87,9 +87,11 @@ class Python_ECDSAKey(ECDSAKey):
 
     def _verify(self, signature, hash_bytes):
         try:
+            # hashes longer than the curve order are truncated (FIPS 186-4)
             return self.public_key.verify_digest(compatHMAC(signature),
                                                  compatHMAC(hash_bytes),
-                                                 sigdecode_der)
+                                                 sigdecode_der,
+                                                 allow_truncate=True)
         # https://github.com/warner/python-ecdsa/issues/114
         except (BadSignatureError, UnexpectedDER, IndexError, AssertionError):
             return False
